@@ -316,3 +316,35 @@ def _flag_blocks_leading_to(f, push_bb, lk_bb):
             if lk_bb not in f.reach_set(tb, avoid={push_bb}):
                 out.add(d[1])
     return out
+
+
+def check_all_statements_compiled(ctx, rule, cr):
+    """Visitor::accept: the loop that hands the statements of a line to the generator runs to the
+    end of the line - its only exit is the iterator running dry"""
+    f = cr.need_fn("mach::codegen::Visitor<'a>::accept")
+    ctx.touch(f)
+    acc = [c for c in f.calls() if c.name.endswith("lang::ast::AcceptVisitor>::accept")
+           and "Statement" in c.name]
+    if not ctx.check(len(acc) == 1, rule, "Visitor::accept/statement-loop", f.span,
+                     "one loop visits the statements of the line"):
+        return
+    scc = None
+    for sc in f.sccs():
+        if acc[0].bb in sc:
+            scc = set(sc)
+    nexts = [c for c in f.calls() if c.bb in (scc or ()) and
+             (c.name.endswith("Iterator>::next") or c.name.endswith("Iterator::next"))]
+    ok = scc is not None and len(nexts) == 1
+    if ok:
+        exits = [b for b in scc if any(s not in scc and not f.is_unreachable_block(s)
+                                       and f.blocks[s].get("cleanup") is not True
+                                       for s in f.succ(b))]
+        # the only block leaving the loop is the switch on next()'s result
+        sw = nexts[0].target
+        ok = set(exits) <= {sw}
+    ctx.check(ok, rule, "Visitor::accept/every-statement-compiled", acc[0].span,
+              "the statement loop ends only when the line's statements are exhausted",
+              "the loop over a line's statements can stop early (a `break` after some statement "
+              "kind): statements after it on the same line are never compiled, so a DATA after "
+              "`GOTO n:` disappears and a WEND there leaves its WHILE unmatched - behaviour then "
+              "depends on whether the statements share a line")
